@@ -114,6 +114,11 @@ func (rs *ResourceSubscription) GetModel() (*Model, uint) {
 func (rs *ResourceSubscription) Unsubscribe(sub Subscriber) {
 	rs.e.Enqueue(func() {
 		if sub != nil {
+			// The subscriber may already have been released by a delete event
+			// or an error response that it has not yet processed.
+			if _, ok := rs.subs[sub]; !ok {
+				return
+			}
 			delete(rs.subs, sub)
 		}
 
